@@ -33,6 +33,8 @@ KEYS = tuple(FLOORS["quick"].keys()) + ("falsy_scalar_args_cases", "big_clock_ca
 # floors for the situations added with the later rounds of seeded changes (evidence that they were really exercised)
 FLOORS["quick"].update({'rational_clock_cases': 150})
 FLOORS["thorough"].update({'rational_clock_cases': 750})
+FLOORS["quick"].update({'two_timer_cases': 300, 'unreferenced_timer_probes': 4})
+FLOORS["thorough"].update({'two_timer_cases': 1500, 'unreferenced_timer_probes': 4})
 
 
 def plan(tier):
